@@ -280,7 +280,11 @@ func (s *S) Run(c *scen.Ctx) {
 	c.Describe("server_echoes", s.echo)
 	c.Describe("server_write_timeout", writeTO.String())
 	s.writeTO = writeTO
-	conf := &transport.TarsServerConf{Proto: "tcp", Address: srvAddr, MaxInvoke: int32(s.pool), QueueCap: 1000,
+	// the pool's queue may be far shorter than a burst of coalesced packets: the receive loop then
+	// waits for room, it does not get to skip packets
+	qcap := []int{1000, 1000, 1, 2, 5}[simrt.Draw(5, "c07.queuecap")]
+	c.Describe("queue_cap", qcap)
+	conf := &transport.TarsServerConf{Proto: "tcp", Address: srvAddr, MaxInvoke: int32(s.pool), QueueCap: qcap,
 		AcceptTimeout: 500 * time.Millisecond, IdleTimeout: 600 * time.Second, WriteTimeout: writeTO}
 	srv := transport.NewTarsServer(&srvProto{s}, conf)
 	if err := srv.Listen(); err != nil {
